@@ -295,6 +295,37 @@ def modelledIdKeys : List (String × String × String × IdKeyKind) := [
 def idKeysRegistered (scanned : List (String × String × String)) : Bool :=
   scanned.all fun s => modelledIdKeys.any fun m => m.1 == s.1 && m.2.1 == s.2.1 && m.2.2.1 == s.2.2
 
+/-! ### Memo keys cover the parameters of the memoised computation
+
+`Generated/CacheKeys.lean` lists every store `<memo table>[key] = value` of pyanalyze with the
+parameters of the enclosing function the stored value is computed from (syntactically: reachable
+from the value expression through local assignments) and the parameters that occur in the key (or
+in the container expression, e.g. `val.resolution_cache`). A parameter the value depends on but the
+key omits is what `memo_key_must_determine` exhibits in the model: the table replays the answer of
+the first variant. The waivers are the omissions of the pinned tree, each with the reason why the
+parameter cannot change the stored value for the lookups pyanalyze makes. -/
+
+/-- (file, function, memo table, parameter) -/
+def memoKeyWaivers : List (String × String × String × String) := [
+  -- the evaluator closures belong to the alias statement the key identifies (one alias object: one pair of closures)
+  ("pyanalyze/annotations.py", "_DefaultContext.get_type_alias", "type_alias_cache", "evaluator"),
+  ("pyanalyze/annotations.py", "_DefaultContext.get_type_alias", "type_alias_cache", "evaluate_type_params"),
+  -- `impl`: only `with_implementation` (a test helper) and the default argspecs pass one, for objects nobody else
+  -- looks up with another; `is_asynq`: only for `.asynq` attributes of asynq functions; `in_overload_resolution`:
+  -- only for the per-overload function objects taken from the overload registry. Hazards of the pinned tree,
+  -- outside the generated programs (see ASSUMPTIONS of harness/props/c10.py).
+  ("pyanalyze/arg_spec.py", "ArgSpecCache._cached_get_argspec", "known_argspecs", "impl"),
+  ("pyanalyze/arg_spec.py", "ArgSpecCache._cached_get_argspec", "known_argspecs", "is_asynq"),
+  ("pyanalyze/arg_spec.py", "ArgSpecCache._cached_get_argspec", "known_argspecs", "in_overload_resolution"),
+  -- a copy of the default table inside the `with_implementation` context manager (test helper)
+  ("pyanalyze/arg_spec.py", "with_implementation", "known_argspecs", "implementation_fn")
+]
+
+/-- Every parameter the stored value is computed from occurs in the key, or is waived. -/
+def memoKeysCover (scanned : List (String × String × String × String × List String × List String)) : Bool :=
+  scanned.all fun r => r.2.2.2.2.1.all fun p =>
+    r.2.2.2.2.2.contains p || memoKeyWaivers.contains (r.1, r.2.1, r.2.2.1, p)
+
 /-! ### Classifying a textual difference between two renderings of the same diagnostic
 
 A message is cut into tokens at the separators of lists and unions; two renderings *differ by
